@@ -216,6 +216,14 @@ def one_dir(ctx, res, rng, d):
     model_reqs = []
     zdir.mkdir(parents=True)
     files = add_case_twins(rng, add_extended_zids(rng, add_mentions(rng, add_tag_lookalikes(rng, G.gen_dir(rng, npages=(2, 4), with_zid=True, sections=True, date_prob=0.1, far_dates=False)))))
+    # every page holds at least one multi-line note
+    for rel in list(files):
+        ls = files[rel].split("\n")
+        if not any(b - a > 1 for a, b in H.item_spans(ls)):
+            sp = H.item_spans(ls)
+            if sp:
+                ls.insert(sp[0][1], "  * a bullet of its own k::zz")
+                files[rel] = "\n".join(ls)
     G.write_dir(zdir, files)
     (zdir / "made.zot").write_text("# TEMPLATE made\n\n## {{ name }}\n")
     Z.clear_engine_cache()
@@ -223,7 +231,7 @@ def one_dir(ctx, res, rng, d):
         rc, _, _ = Z.zorg_main(zdir, "db", "create", config=cfg)
     if rc != 0:
         return model_reqs
-    if rng.random() < 0.4:
+    if d % 2 == 0:
         # notes that were edited and stamped on later days (also twice: the old stamp is replaced) before they are moved
         w = H.World(ctx, rng, zdir, cfg, start=TODAY)
         for _rnd in range(3):
@@ -246,7 +254,7 @@ def one_dir(ctx, res, rng, d):
     for r in rows:
         r["priority"] = f"P{r['priority']}" if r["priority"] is not None else None
     twins = [r for r in rows if any(o["zid"] == r["zid"] + "A" for o in rows)]
-    twins += [r for r in rows if "\n" in r["body"] and re.match(r"^\d{6} \d{6}#", r["body"])][:2]   # stamped multi-line notes first
+    twins = [r for r in rows if "\n" in r["body"] and re.match(r"^\d{6} \d{6}#", r["body"])][:2] + twins   # stamped multi-line notes first
     twins += [r for r in rows if any(o["zid"] != r["zid"] and o["zid"].lower() == r["zid"].lower() for o in rows)][:2]
     sample = rows if len(rows) <= 6 or ctx.tier == "thorough" else (twins[:4] + rng.sample(rows, max(0, 6 - len(twins[:4]))))
     for row in sample:
